@@ -47,9 +47,10 @@ PROPS = {
         "theorems": ["MRL.C03.unlink_after_sync", "MRL.C03.unlink_after_sync_open", "MRL.C03.unlink_after_sync_split",
                      "MRL.C03.create_synced", "MRL.C03.delete_synced", "MRL.C03.persist_flush", "MRL.C03.persist_flushAndFsync",
                      "MRL.C03.always_persists", "MRL.C03.onDelay_persists", "MRL.C03.buffer_empty_of_flushedAtEnd",
-                     "MRL.C03.flush_then_unlink", "MRL.C03.flush_then_unlink_image", "MRL.C02.C02_torn_tail", "MRL.C02.C02_resume"],
+                     "MRL.C03.flush_then_unlink", "MRL.C03.flush_then_unlink_image", "MRL.C02.C02_torn_tail", "MRL.C02.C02_resume",
+                     "MRL.C03D.C03_durable", "MRL.C03D.C03_durable_after", "MRL.C03D.C03_power_loss", "MRL.C03D.forced_tail", "MRL.C03D.persist_tail"],
         "examples": 4,
-        "modules": ["MRL.Props.C03", "MRL.Props.C02"],
+        "modules": ["MRL.Props.C03", "MRL.Props.C02", "MRL.Props.C03Durable"],
         "kinds": "ODSFRE",
         "campaigns": {"quick": [("crash-policies", 20, 60)], "thorough": [("crash-policies", 240, 120)]},
         "rule": "as C02 under all seven policies (DoNothing, OnDelay never/always due x Flush/FlushAndFsync, Always x 2) with explicit persist "
@@ -62,9 +63,10 @@ PROPS = {
         "theorems": ["MRL.C04.spec_next_mono", "MRL.C04.spec_append_fresh", "MRL.C04.spec_run_next_mono",
                      "MRL.C04.spec_below_preserved", "MRL.C04.C04_model_next_mono", "MRL.C04.C04_model_run_next_mono",
                      "MRL.C04.C04_model_append_fresh",
-                     "MRL.C04R.C04_restart_next", "MRL.C04R.C04_restart_append_fresh", "MRL.C04R.C04_reach_next_mono"],
+                     "MRL.C04R.C04_restart_next", "MRL.C04R.C04_restart_append_fresh", "MRL.C04R.C04_reach_next_mono",
+                     "MRL.C04C.C04_crash_next_mono", "MRL.C04C.C04_crash_then_append_fresh"],
         "examples": 3,
-        "modules": ["MRL.Props.C04", "MRL.Props.C04Restart"],
+        "modules": ["MRL.Props.C04", "MRL.Props.C04Restart", "MRL.Props.C04Crash"],
         "kinds": "ORS",
         "campaigns": {"quick": [("ops", 16, 110), ("crash", 8, 50)], "thorough": [("ops", 200, 200), ("crash-policies", 100, 100)]},
         "rule": "ops and crash campaigns; oracle: within one incarnation of a queue every append returns positions >= the previous next "
@@ -125,9 +127,10 @@ PROPS = {
     },
     "C09": {
         "theorems": ["MRL.C09.C09_one_frame", "MRL.C09.damaged_buffers", "MRL.C09.undamaged", "MRL.C09.framesOf_is_layout",
-                     "MRL.C12.assemble_whole_entry"],
+                     "MRL.C12.assemble_whole_entry",
+                     "MRL.C09R.C09_drop_one", "MRL.C09R.C09_drop_one_run", "MRL.C09R.C09_end_to_end"],
         "examples": 2,
-        "modules": ["MRL.Props.C09", "MRL.Props.C12"],
+        "modules": ["MRL.Props.C09", "MRL.Props.C12", "MRL.Props.C09Replay"],
         "kinds": "ODSN",
         "campaigns": {"quick": [("damage-aimed", 16, 70), ("bytes", 12, 120)], "thorough": [("damage-aimed", 240, 120), ("bytes", 150, 250)]},
         "rule": "aimed damage: a traced frame still on disk, alteration (bit flip / garbage / inverted byte) confined to its checksum or payload "
@@ -164,9 +167,10 @@ PROPS = {
     "C12": {
         "theorems": ["MRL.C12C.C12_crash", "MRL.C12C.C12_damage", "MRL.C12C.allOrSuffix_of_replay",
                      "MRL.C12.replay_batch_suffix", "MRL.C12.batch_suffix_fresh", "MRL.C12.batch_all_or_nothing",
-                     "MRL.C12.assemble_whole_entry"],
+                     "MRL.C12.assemble_whole_entry",
+                     "MRL.C12K.C12_crash_batch_atomic", "MRL.C12K.C12_crash_no_partial_batch"],
         "examples": 5,
-        "modules": ["MRL.Props.C12", "MRL.Props.C12Compose"],
+        "modules": ["MRL.Props.C12", "MRL.Props.C12Compose", "MRL.Props.C12Crash"],
         "kinds": "ODSN",
         "campaigns": {"quick": [("crash", 10, 60), ("damage", 10, 70), ("bytes", 12, 120)], "thorough": [("crash-policies", 150, 110), ("damage", 150, 110), ("bytes", 150, 250)]},
         "rule": "crash and damage campaigns with batches of 2-6 records sized to span blocks and files; oracle: for every batch whose queue "
@@ -199,8 +203,10 @@ PROPS = {
         "assumptions": ["an I/O error returned by a flush is not modelled"],
     },
     "C15": {
-        "theorems": ["MRL.C15.C15_bytes_exact", "MRL.C15.C15_zero_iff", "MRL.C15.C15_contiguous", "MRL.C15.C15_writes_nonempty"],
+        "theorems": ["MRL.C15.C15_bytes_exact", "MRL.C15.C15_zero_iff", "MRL.C15.C15_contiguous", "MRL.C15.C15_writes_nonempty",
+                     "MRL.C15O.C15_open", "MRL.C15O.C15_open_zero_iff"],
         "examples": 2,
+        "modules": ["MRL.Props.C15", "MRL.Props.C15Open"],
         "kinds": "REBO",
         "campaigns": {"quick": [("ops", 24, 110), ("bytes", 8, 100)], "thorough": [("ops", 300, 220), ("bytes", 100, 200)]},
         "rule": "ops campaign: wal_bytes_written of every create/delete/append/truncate compared with the summed sizes of the Write events of "
@@ -224,8 +230,10 @@ PROPS = {
         "theorems": ["MRL.C17.parse_fileName", "MRL.C17.parse_format", "MRL.C17.parse_some_iff", "MRL.C17.parse_injective",
                      "MRL.C17.parse_wrong_length", "MRL.C17.parse_nondigit", "MRL.C17.parse_non_ascii", "MRL.C17.parse_overflow",
                      "MRL.C17.listWal_only_named", "MRL.C17.effects_named_partial", "MRL.C17.effects_named_of_no_unlink",
-                     "MRL.C17.files_grow_by_succ", "MRL.C17.files_accounted", "MRL.C17.effects_named_false"],
+                     "MRL.C17.files_grow_by_succ", "MRL.C17.files_accounted", "MRL.C17.effects_named_false",
+                     "MRL.C17F.foreign_untouched", "MRL.C17F.foreign_untouched_u64", "MRL.C17F.only_wal_names_created", "MRL.C17F.only_wal_names_removed", "MRL.C17F.image_commutes", "MRL.C17F.toOsOps_files", "MRL.C17F.step_ops_named", "MRL.C17F.step_foreign_untouched"],
         "examples": 9,
+        "modules": ["MRL.Props.C17", "MRL.Props.C17Foreign"],
         "kinds": "OSFDEM",
         "campaigns": {"quick": [("names", 12, 80), ("bytes", 8, 100)], "thorough": [("names", 150, 160), ("bytes", 100, 200)]},
         "rule": "names campaign: 14 foreign entries (23/25-char names, letters, sign, non-ASCII digit, wrong prefix/case, suffixes, a "
@@ -237,9 +245,10 @@ PROPS = {
     "C18": {
         "theorems": ["MRL.C18.spec_other_untouched", "MRL.C18.spec_outcome_local", "MRL.C18.C18_spec_projection",
                      "MRL.C18.C18_model_projection", "MRL.C18.C18_model_projection_filter",
-                     "MRL.C18R.C18_restart_view", "MRL.C18R.C18_restart_projection"],
+                     "MRL.C18R.C18_restart_view", "MRL.C18R.C18_restart_projection",
+                     "MRL.C18C.C18_crash_other_untouched", "MRL.C18C.C18_crash_persist"],
         "examples": 2,
-        "modules": ["MRL.Props.C18", "MRL.Props.C18Restart"],
+        "modules": ["MRL.Props.C18", "MRL.Props.C18Restart", "MRL.Props.C18Crash"],
         "kinds": "ORSG",
         "campaigns": {"quick": [("projection", 8, 70)], "thorough": [("projection", 120, 160), ("crash", 40, 80)]},
         "rule": "a history over 2-4 queues and, for each queue, its projection (calls addressed to it, restarts and persists kept) run on the "
